@@ -99,17 +99,29 @@ class LeafNode(TreeNode):
         """
         printer.write(repr(self.object))
 
+    @staticmethod
+    def _sort_key(obj):
+        # Used when two wrapped objects cannot be compared: falling back to comparing their strings alone is not
+        # transitive together with the natural order (10 < "9" < 9.5 < 10), and sorting a mapping's keys would then
+        # depend on the order in which they were written. Order by kind first: null, numbers, bytes, strings, the rest.
+        if obj is None:
+            return 0, ""
+        elif isinstance(obj, (bool, int, float)):
+            return 1, str(obj)
+        elif isinstance(obj, bytes):
+            return 2, str(obj)
+        elif isinstance(obj, str):
+            return 3, obj
+        else:
+            return 4, str(obj)
+
     def __lt__(self, other):
         if isinstance(other, LeafNode):
-            try:
-                return self.object < other.object
-            except TypeError:
-                return str(self.object) < str(other.object)
-        else:
-            try:
-                return self.object < other
-            except TypeError:
-                return str(self.object) < str(other)
+            other = other.object
+        try:
+            return self.object < other
+        except TypeError:
+            return LeafNode._sort_key(self.object) < LeafNode._sort_key(other)
 
     def __eq__(self, other):
         if isinstance(other, LeafNode):
